@@ -747,5 +747,64 @@ def run(ck):
     queue = []
     try:
         _run(ck, queue)
+        expansion_sequences(ck)
     finally:
         flush(ck, queue)
+
+
+# --------------------------------------------------------------------------- expansion sequences (real classes)
+def expansion_sequences(ck):
+    """multi-step history on ONE RefCatalog, as align_wcs does with expand_refcat: pick the next image, add its
+    sources to the reference catalog (the footprint grows), pick again. After every step the chosen image must have
+    the largest overlap with the CURRENT reference footprint and the reported area must be that of exactly this
+    image - recomputed here on a freshly built RefCatalog (so a stale cached overlap is exposed)."""
+    import gen_align as A
+    from astropy.table import Table
+    from tweakwcs import FITSWCSCorrector, imalign
+    from tweakwcs.wcsimage import RefCatalog, WCSGroupCatalog, WCSImageCatalog
+    rng = ck.rng
+    nprng = np.random.default_rng(rng.randrange(2 ** 31))
+    for t in range(ck.n(10, 120)):
+        nim = rng.choice([3, 4, 5])
+        ra, dec = A.separated_sources(nprng, 260, 0.02, 6e-5)
+        step = 0.006
+        # a chain / cluster of pointings: the reference sees the first one only
+        offs = [(0.0, 0.0)]
+        for k in range(nim):
+            base = offs[rng.randrange(len(offs))]
+            offs.append((base[0] + rng.choice([-1, 1]) * step * rng.uniform(0.5, 0.95),
+                         base[1] + rng.choice([-1, 0, 1]) * step * rng.uniform(0.0, 0.9)))
+        groups = []
+        for k, (dx, dy_) in enumerate(offs):
+            w = A.mkwcs(crval=(82.0 + dx / np.cos(np.deg2rad(12.0)), 12.0 + dy_), rot=rng.uniform(0, 360))
+            x, y, sid = A.observe(w, ra, dec)
+            if len(x) < 8:
+                break
+            c = FITSWCSCorrector(w, meta={'catalog': Table([x, y], names=('x', 'y')), 'name': 'im%d' % k})
+            groups.append(WCSGroupCatalog(WCSImageCatalog(c.meta['catalog'], c, name='im%d' % k), name='im%d' % k))
+        if len(groups) < 3:
+            continue
+        first = groups.pop(0)
+        refcat = RefCatalog(Table([first.catalog['RA'], first.catalog['DEC']], names=('RA', 'DEC')), name='ref')
+        work = list(groups)
+        hist = []
+        while work:
+            before = list(work)
+            im, area = imalign._max_overlap_image(refcat, work, enforce_user_order=False)
+            fresh = RefCatalog(Table([refcat.catalog['RA'], refcat.catalog['DEC']], names=('RA', 'DEC')), name='fresh')
+            areas = [float(fresh.intersection_area(g)) for g in before]
+            best = max(areas)
+            k = [i for i, g in enumerate(before) if g is im][0]
+            ck.search_evaluations += 1
+            ck.case(('expseq', t, len(hist), [round(a * 1e12) for a in areas]), len(hist) >= 1 and best > 0)
+            hist.append({'picked': im.name, 'reported_area': float(area), 'fresh_areas': dict(zip([g.name for g in before], areas))})
+            tol = 1e-3 * max(best, 1e-30)
+            if areas[k] < best - tol or abs(float(area) - areas[k]) > tol or len(work) != len(before) - 1 or im in work:
+                ck.violation({'kind': 'next-image-after-catalog-expansion-violates-property',
+                              'history (each step: picked image, reported area, overlap of every candidate with the '
+                              'current reference footprint recomputed on a fresh RefCatalog)': hist,
+                              'pointing_offsets_deg': offs, 'predicate': 'picked image has the largest overlap with '
+                              'the CURRENT reference footprint; reported area is the area of exactly that image'})
+                break
+            refcat.expand_catalog(Table([im.catalog['RA'], im.catalog['DEC']], names=('RA', 'DEC')))
+        ck.count('expansion_sequence_length', len(hist))
